@@ -102,6 +102,7 @@ ORACLE = {
     'C13': ['res', 'tree', 'unjustified'],
     'C14': ['res', 'tree', 'rollback', 'tmp_leak', 'contract'],
     'C15': ['refused_effect', 'tmp_leak'],
+    'C18': ['res', 'inv_extra', 'unjustified'],
     'C16': ['res', 'unjustified', 'rollback', 'clean_tree', 'cache_early'],
     'TIE': [],
 }
@@ -117,6 +118,7 @@ TIE = {
     'C08': ['impl_inv', 'impl_res'],
     'C10': ['impl_res', 'impl_tree'],
     'C12': ['impl_tree'],
+    'C18': ['impl_inv', 'impl_res'],
     'C13': ['impl_inv', 'impl_res'],
     # under an injected fault the library may already have moved an old output aside when the call fails:
     # whether a later call can still reuse it is below the model's abstraction, so mtimes are not compared
@@ -1156,6 +1158,12 @@ def check_C18(tier):
     for what, inp, got in bad[:3]:
         rep.violation('json', {'property': 'C18', 'kind': 'failing-input', 'what': what, 'input': repr(inp), 'got': repr(got)},
                       note='%s on %r' % (what, inp))
+    # "the JSON equality used for cache decisions": the same laws where the library applies them - argument pairs and
+    # version pairs that are / are not JSON-equal decide hits across builds and duplicates within one (models: FB.Impl)
+    ds = measure()
+    cases = gen.gen_scenario_cases(core.seed() * 31 + 18, budget(tier, 260, 4000), ds, [gen.scen_identity])
+    cases += gen.gen_scenario_cases(core.seed() * 31 + 118, budget(tier, 80, 1500), ds, [gen.scen_versions, gen.scen_dups])
+    explore('C18', tier, rep, cases)
     rep.coverage.update({'programs': rep.counters.get('values', 0), 'disagreements_checked': rep.counters.get('evaluations', 0)})
     return finish('C18', rep, gate)
 
@@ -1272,9 +1280,82 @@ def check_C09(tier):
     return finish('C09', rep, gate)
 
 
+def fence_paths_probe(tier, rep):
+    """C17, every query method x every kind of path on finished builders (sequentially): the cache file of the running
+    build (str and bytes), the builder's own target, a path being built by nobody, the sandbox root, a missing path.
+    Whatever the path, a finished builder raises RuntimeError - no answer is constant enough to skip the fence."""
+    import shutil
+    import tempfile
+    fb = realrun.load_fb()
+    FB = fb.FileBuilder
+    problems = []
+    root = os.path.realpath(tempfile.mkdtemp(prefix='fbh_fence_', dir=realrun.SANDBOX_BASE))
+    try:
+        cache = os.path.join(root, 'cache.gz')
+        with open(os.path.join(root, 'inp'), 'w') as fh:
+            fh.write('x')
+        kept = {}
+
+        def sub_ok(b):
+            kept['subbuild'] = b
+            return 1
+
+        def sub_raises(b):
+            kept['subbuild(raised)'] = b
+            raise ValueError('boom')
+
+        def bf_ok(b, fn):
+            kept['build_file'] = b
+            with open(fn, 'w') as fh:
+                fh.write('o')
+
+        def bf_raises(b, fn):
+            kept['build_file(raised)'] = b
+            raise ValueError('boom')
+
+        def rootf(b):
+            kept['root'] = b
+            b.subbuild('s1', sub_ok)
+            b.build_file(os.path.join(root, 'o', 'f1'), 'f1', bf_ok)
+            for f_, a_ in ((b.subbuild, ('s2', sub_raises)), (b.build_file, (os.path.join(root, 'o', 'f2'), 'f2', bf_raises))):
+                try:
+                    f_(*a_)
+                except ValueError:
+                    pass
+        FB.build(cache, 'n', rootf)   # twice: the second time with a cache file in place while the functions run
+        FB.build_versioned(cache, 'n', {'s1': 1, 'f1': 1}, rootf)
+        paths = {'cache file': cache, 'cache file (bytes)': os.fsencode(cache), 'an output': os.path.join(root, 'o', 'f1'),
+                 'an input': os.path.join(root, 'inp'), 'the sandbox': root, 'a missing path': os.path.join(root, 'nope', 'x'),
+                 'a failed target': os.path.join(root, 'o', 'f2')}
+        H = fb.FileComparison.HASH
+        calls = [('is_file', lambda b, q: b.is_file(q)), ('is_dir', lambda b, q: b.is_dir(q)), ('exists', lambda b, q: b.exists(q)),
+                 ('list_dir', lambda b, q: b.list_dir(q)), ('walk', lambda b, q: b.walk(q)), ('walk(bottom up)', lambda b, q: b.walk(q, False)),
+                 ('get_size', lambda b, q: b.get_size(q)), ('declare_read', lambda b, q: b.declare_read(q)),
+                 ('declare_read(HASH)', lambda b, q: b.declare_read(q, H)), ('read_text', lambda b, q: b.read_text(q).close()),
+                 ('read_binary', lambda b, q: b.read_binary(q, H).close())]
+        for kind, b in sorted(kept.items()):
+            for pname, q in paths.items():
+                for mname, call in calls:
+                    rep.count('fence_path_calls')
+                    try:
+                        r = call(b, q)
+                        problems.append({'what': '%s(%s) on a finished %s builder returned %r instead of raising RuntimeError' % (mname, pname, kind, r)})
+                    except RuntimeError:
+                        pass
+                    except Exception as e:
+                        problems.append({'what': '%s(%s) on a finished %s builder raised %s instead of RuntimeError' % (mname, pname, kind, type(e).__name__)})
+    except Exception as e:
+        problems.append({'what': 'the fence probe could not be driven: %s: %s' % (type(e).__name__, str(e)[:160])})
+    finally:
+        shutil.rmtree(root, ignore_errors=True)
+    return problems
+
+
 def check_C17(tier):
     rep = core.Report('C17', tier)
     gate = core.proof_gate(THEOREMS['C17'], tier)
+    for q in fence_paths_probe(tier, rep)[:3]:
+        rep.violation('fence_paths', {'property': 'C17', 'kind': 'failing-input', 'what': q}, note=q['what'][:250])
     reported = set()
     real_classes = set()
     total = 0
